@@ -598,13 +598,16 @@ func runOp[T comparable](w *world[T], c *mem[T], vars []mapset.Set[T], op string
 			src := vars[j]
 			want := len(src)
 			var r mapset.Set[T]
+			mark := ""
 			if p[0] == "keysv" {
 				r = mapset.Keys(src)
+			} else if arg(3) == "p" { // round 6: the keys of the set behind a single-use sequence
+				r, mark = rangePulledKeys(src)
 			} else {
 				r = mapset.Range(maps.Keys(src))
 			}
 			vars[i] = r
-			res = returned(vars[i])
+			res = returned(vars[i]) + mark
 			if len(src) != want { // (whether it is still the same map shows in the dumps)
 				res += "!"
 			}
@@ -1067,13 +1070,17 @@ func (g *gen) history() {
 			}
 			switch op := tr.Pick(g.r, []string{"range", "keys", "values", "keysv", "rangev"}); op {
 			case "keysv", "rangev": // another set is the argument map
+				if op == "rangev" && g.r.Bool() { // round 6: behind a single-use sequence
+					ops = append(ops, fmt.Sprintf("rangev:%d:%d:p", i, j))
+					break
+				}
 				ops = append(ops, fmt.Sprintf("%s:%d:%d", op, i, j))
 			case "keys":
 				ops = append(ops, fmt.Sprintf("keys:%d:%s:%s", i, l, tr.Pick(g.r, []string{"s", "e", "S", "i", "p", "z", "a"})))
 			case "values":
 				ops = append(ops, fmt.Sprintf("values:%d:%s:%s", i, l, tr.Pick(g.r, []string{"i", "s", "t", "a"})))
 			default:
-				ops = append(ops, fmt.Sprintf("range:%d:%s", i, l))
+				ops = append(ops, fmt.Sprintf("range:%d:%s:%s", i, l, tr.Pick(g.r, seqKinds))) // round 6: the kind of sequence
 			}
 		case c < 78:
 			ops = append(ops, fmt.Sprintf("%s:%d:%s", tr.Pick(g.r, []string{"hasall", "hasany"}), i, g.randList(u, 3)))
@@ -1107,7 +1114,7 @@ func (g *gen) history() {
 	g.emit(fmt.Sprintf("H %d %s", k, strings.Join(ops, ";")), true, tags...)
 }
 
-const rule = "C18: (identity of every returned map by address, relative to the variables before the call, and which variables share a map, are part of every output) every binary operation (AddAll, RemoveAll, Intersects, IsSubset, Equals, Intersect into a third/the first/the second variable) on every ordered pair of operands from {nil} + the 16 subsets of {0..3}, each also followed by mutations of result and argument (aliasing poison); every unary operation and every self-application (s op s, also followed by reads and writes) on the 17 operands; degenerate arguments (no items, the nil iterator function, nil maps, negative and huge size hints); big sets of 9-130 (thorough: -300) elements with self-application, draining by Pop and overlapping operands; HasAll/HasAny/Add/Remove with every item list to length 2 (quick) / 3 (thorough) over {0..4}; New/Range/Keys/Values on every list to length 3; Intersect on every triple over {nil} + subsets of {0,1,2}; random histories of 5-40 operations over 2-4 variables and universes of 3-7 elements, with variables reset to nil, cleared and drained by Pop.  After every operation every variable is dumped (nil-ness, Len, IsEmpty, Has over 0..7, sorted keys).  The element Pop returned and the order Slice/Append produced are recorded as oracle inputs.  Round 3, scale stream (kinds Si Sx Ss St = int / extreme int / string / struct elements, codes in the trace, code 0 = the zero value of the type and a member of almost every set): sets of 2^k-1, 2^k, 2^k+1 members for k = 1..12 and a few random large sizes: every observer and variadic call on the big set (no items, repeats, more arguments than members, non-members; Has asked about every element of the universe), the zero value removed / re-added / popped, every self-application, constructors from sequences with repeats (argument maps and slices poisoned afterwards), sets emptied by Remove or Clear and used again, every binary operation on (nil, empty, emptied by Remove, cleared, singleton, big) x the same with results and operands mutated afterwards, equal big operands and one-element differences, Pop until empty and beyond (to 1025 members in the quick tier, 2049 in the thorough tier), grow - drain to 1/8 by Pop or Remove - observe - regrow, random histories over runs of about 2^k items; lists of more than 64 codes in the output are digests of the SORTED codes.  Round 4 (kinds Sp Sa Sf Sz added = *int / any with mixed dynamic types / float64 / struct{} elements; code 0 is the nil pointer, the nil interface, 0.0, struct{}{}): every generic entry point on every one of the eight element types with a nil, an empty non-nil and a populated argument -- Keys for nine value types of the argument map (struct{}, a mapset.Set, string, int, bool, *int, [0]int, any, func()), Values for six key types, Range for three kinds of iterator, Keys/Range of another set VARIABLE (nil, empty, emptied, cleared, populated, the destination itself), New/Add/Remove/HasAll/HasAny/Intersect with no argument at all, the nil slice, a window into a larger array; all 36 operand-shape pairs on every type; string elements with equal FNV-1a-32 / Java hashes in either operand; Append onto every (len 0..4, cap-len 0..8) for every set size 0..6, fresh and after shrinking, with the placement of the result (the destination's array iff cap-len >= Len) and the cells outside the appended range part of the output; every set size 0..600 (quick: all to 256, every fourth beyond) with argument counts and spare capacities one below, at and one above Len and operands differing in one element.  Round 5 (multi-operand calls, packed 15-120 calls to a line): Intersect of EVERY ordered triple and quadruple of {nil} + the 16 subsets of {0..3} (quick: quadruples with nil at one rotating position), each third pair of operands also as a chain of two AddAll and of two RemoveAll; 2..5 operands over universes of 4..8 values for EVERY weak order of their sizes (3, 13, 75, 541 patterns; the smallest with 1, 2 or 3 members), all sharing one value and then, position by position, the operand there alone giving it up at unchanged size -- Intersect into a fresh variable and into the first operand's, the same operands as AddAll chains into a nil / empty / small / full receiver and RemoveAll chains out of the full universe, with repeats and the receiver itself in the chain, on the typed kinds too; every list of 1..5 operand indices with repeats over three variables of decreasing sizes; nil / empty / emptied / cleared / NewSize(0) operands at every position of 2..5 operands, one and two at a time; HasAll, HasAny, Add, Remove with every item list of 3, 4 and 5 items over {0..4} (quick: nine receivers to length 4, length 5 once with a rotating receiver); struct{} elements with every list of 0..5 operands over nil, {} and {0}; bool elements (kind So) with every list of 0..4 operands over nil, {}, {false}, {true}, {false,true}, every pair, every item list to 5 items and the constructors; uint8, int16 and float32 elements (Sb Sh Sg) through the round-4 instantiation / capacity generators, batteries and pairs at 1..200 members; thorough tier only: sets of exactly 2^15, 2^16-1, 2^16, 2^16+1 members (kinds Li Lx Ls Lt Lf; expected outputs from a direct evaluator on OCaml's sets, the extracted model being quadratic per call).  The operand list handed to Intersect has a spare cell behind it and is compared with what was handed in after every call.  Every case is non-trivial; distinct = distinct recorded inputs."
+const rule = "C18: (identity of every returned map by address, relative to the variables before the call, and which variables share a map, are part of every output) every binary operation (AddAll, RemoveAll, Intersects, IsSubset, Equals, Intersect into a third/the first/the second variable) on every ordered pair of operands from {nil} + the 16 subsets of {0..3}, each also followed by mutations of result and argument (aliasing poison); every unary operation and every self-application (s op s, also followed by reads and writes) on the 17 operands; degenerate arguments (no items, the nil iterator function, nil maps, negative and huge size hints); big sets of 9-130 (thorough: -300) elements with self-application, draining by Pop and overlapping operands; HasAll/HasAny/Add/Remove with every item list to length 2 (quick) / 3 (thorough) over {0..4}; New/Range/Keys/Values on every list to length 3; Intersect on every triple over {nil} + subsets of {0,1,2}; random histories of 5-40 operations over 2-4 variables and universes of 3-7 elements, with variables reset to nil, cleared and drained by Pop.  After every operation every variable is dumped (nil-ness, Len, IsEmpty, Has over 0..7, sorted keys).  The element Pop returned and the order Slice/Append produced are recorded as oracle inputs.  Round 3, scale stream (kinds Si Sx Ss St = int / extreme int / string / struct elements, codes in the trace, code 0 = the zero value of the type and a member of almost every set): sets of 2^k-1, 2^k, 2^k+1 members for k = 1..12 and a few random large sizes: every observer and variadic call on the big set (no items, repeats, more arguments than members, non-members; Has asked about every element of the universe), the zero value removed / re-added / popped, every self-application, constructors from sequences with repeats (argument maps and slices poisoned afterwards), sets emptied by Remove or Clear and used again, every binary operation on (nil, empty, emptied by Remove, cleared, singleton, big) x the same with results and operands mutated afterwards, equal big operands and one-element differences, Pop until empty and beyond (to 1025 members in the quick tier, 2049 in the thorough tier), grow - drain to 1/8 by Pop or Remove - observe - regrow, random histories over runs of about 2^k items; lists of more than 64 codes in the output are digests of the SORTED codes.  Round 4 (kinds Sp Sa Sf Sz added = *int / any with mixed dynamic types / float64 / struct{} elements; code 0 is the nil pointer, the nil interface, 0.0, struct{}{}): every generic entry point on every one of the eight element types with a nil, an empty non-nil and a populated argument -- Keys for nine value types of the argument map (struct{}, a mapset.Set, string, int, bool, *int, [0]int, any, func()), Values for six key types, Range for three kinds of iterator, Keys/Range of another set VARIABLE (nil, empty, emptied, cleared, populated, the destination itself), New/Add/Remove/HasAll/HasAny/Intersect with no argument at all, the nil slice, a window into a larger array; all 36 operand-shape pairs on every type; string elements with equal FNV-1a-32 / Java hashes in either operand; Append onto every (len 0..4, cap-len 0..8) for every set size 0..6, fresh and after shrinking, with the placement of the result (the destination's array iff cap-len >= Len) and the cells outside the appended range part of the output; every set size 0..600 (quick: all to 256, every fourth beyond) with argument counts and spare capacities one below, at and one above Len and operands differing in one element.  Round 5 (multi-operand calls, packed 15-120 calls to a line): Intersect of EVERY ordered triple and quadruple of {nil} + the 16 subsets of {0..3} (quick: quadruples with nil at one rotating position), each third pair of operands also as a chain of two AddAll and of two RemoveAll; 2..5 operands over universes of 4..8 values for EVERY weak order of their sizes (3, 13, 75, 541 patterns; the smallest with 1, 2 or 3 members), all sharing one value and then, position by position, the operand there alone giving it up at unchanged size -- Intersect into a fresh variable and into the first operand's, the same operands as AddAll chains into a nil / empty / small / full receiver and RemoveAll chains out of the full universe, with repeats and the receiver itself in the chain, on the typed kinds too; every list of 1..5 operand indices with repeats over three variables of decreasing sizes; nil / empty / emptied / cleared / NewSize(0) operands at every position of 2..5 operands, one and two at a time; HasAll, HasAny, Add, Remove with every item list of 3, 4 and 5 items over {0..4} (quick: nine receivers to length 4, length 5 once with a rotating receiver); struct{} elements with every list of 0..5 operands over nil, {} and {0}; bool elements (kind So) with every list of 0..4 operands over nil, {}, {false}, {true}, {false,true}, every pair, every item list to 5 items and the constructors; uint8, int16 and float32 elements (Sb Sh Sg) through the round-4 instantiation / capacity generators, batteries and pairs at 1..200 members; thorough tier only: sets of exactly 2^15, 2^16-1, 2^16, 2^16+1 members (kinds Li Lx Ls Lt Lf; expected outputs from a direct evaluator on OCaml's sets, the extracted model being quadratic per call).  The operand list handed to Intersect has a spare cell behind it and is compared with what was handed in after every call.  Round 6 (single-use sequences): Range over nine kinds of sequence -- slices.Values, maps.Keys, a loop that yields every value twice, and six that deliver every value ONCE (a drained queue, a captured position that only moves forward, a closed buffered channel, a bufio.Scanner, iter.Pull handed on as a push sequence, one that panics when ranged over a second time) -- on every element type over the empty list, one value, the zero value, repeats next to each other and apart, a repeat followed by a new value; every list to length 3 over three values under every single-use kind; runs of 0..70 already known values followed by a new one; Range of the pulled keys of another set variable (also the destination itself); the scale batteries and the random histories draw the kind of sequence per call; after the call the source is inspected (values left in it = the callee stopped ranging early).  Every case is non-trivial; distinct = distinct recorded inputs."
 
 func main() {
 	o := tr.ParseFlags()
@@ -1119,7 +1126,9 @@ func main() {
 		}
 	} else if o.Prop == "C18" || o.Prop == "" {
 		g.exhaustive()
-		g.round5() // (multi-operand calls on small int sets: before the big cases, so that the first failing line is a small one)
+		g.round6X() // (single-use sequences on small int sets: early, so that the first failing line is a small one)
+		g.round5()  // (multi-operand calls on small int sets: before the big cases, so that the first failing line is a small one)
+		g.round6()  // (the sequence kinds on every element type)
 		g.big()
 		g.scale()
 		g.round4()
